@@ -5,6 +5,7 @@ import (
 	"fmt"
 	"math/rand"
 	"net"
+	"sort"
 	"strings"
 	"sync"
 	"sync/atomic"
@@ -159,6 +160,8 @@ type hrun struct {
 	log    []string
 	maxD   int64
 	tdown  int64 // clock at close.beforeTeardown (closed flag just published), 0 = not seen
+	// backlog shapes: queued bytes when the connection was torn down
+	bkAtClose int
 
 	closedCh chan struct{}
 	closedFl int32
@@ -241,10 +244,13 @@ func (x *hrun) call(kind string, dms int, who string) part {
 	switch k {
 	case "R":
 		p.dirs = []int{0}
+		k = "Read"
 	case "W":
 		p.dirs = []int{1}
+		k = "Write"
 	default:
 		p.dirs = []int{0, 1}
+		k = ""
 	}
 	if clr {
 		p.e = dl.Effect{Kind: "clear", Call: call, Ret: ret, MustClear: true}
@@ -358,7 +364,8 @@ func (x *hrun) fill() (int64, bool) {
 			return total, false
 		}
 		total += int64(n)
-		if nbio.VerifBacklog(x.srv).Entries > 0 {
+		if bk := nbio.VerifBacklog(x.srv); bk.Entries > 0 && bk.BufBytes >= 256<<10 {
+			x.logf("backlog: %d bytes in %d entries after %d bytes written", bk.BufBytes, bk.Entries, total)
 			return total, true
 		}
 	}
@@ -612,12 +619,7 @@ func (x *hrun) final(r *h.Run, mon *dl.Monitor) {
 	closed := x.waitClosed(ub + slack + int64(maxCtlLate))
 	l, fired := c0.Late()
 	r.Max("max_control_lateness_ms", l.Milliseconds())
-	x.mu.Lock()
-	var tc int64
-	if len(x.closes) > 0 {
-		tc = x.closes[0].T
-	}
-	x.mu.Unlock()
+	tc := x.closeTime()
 	if closed && tc != 0 && (tc <= ub+int64(l)+slack) {
 		x.decided = true
 		return
@@ -637,20 +639,15 @@ func (x *hrun) final(r *h.Run, mon *dl.Monitor) {
 	// not closed: confirm the stuck state at +5 s and +10 s with control timers
 	c5 := dl.NewControl(ub + stuckFirst)
 	if x.waitClosed(ub + stuckFirst + int64(maxCtlLate)) {
-		x.mu.Lock()
-		tc = x.closes[0].T
-		x.mu.Unlock()
-		late(tc)
+		late(x.closeTime())
 		return
 	}
 	c10 := dl.NewControl(ub + stuckSecond)
 	if x.waitClosed(ub + stuckSecond + int64(maxCtlLate)) {
-		x.mu.Lock()
-		tc = x.closes[0].T
-		x.mu.Unlock()
-		late(tc)
+		late(x.closeTime())
 		return
 	}
+	l, fired = c0.Late()
 	l5, f5 := c5.Late()
 	l10, f10 := c10.Late()
 	cl, _ := x.srv.IsClosed()
@@ -661,6 +658,20 @@ func (x *hrun) final(r *h.Run, mon *dl.Monitor) {
 		return
 	}
 	x.incon = fmt.Sprintf("no close 10 s after the deadline but the predicate is not clean (control late %v/%v/%v, IsClosed=%v)", l, l5, l10, cl)
+}
+
+// closeTime is the earliest stamp of the connection being closed (0 = none).
+func (x *hrun) closeTime() int64 {
+	x.mu.Lock()
+	defer x.mu.Unlock()
+	var tc int64
+	if len(x.closes) > 0 {
+		tc = x.closes[0].T
+	}
+	if x.tdown != 0 && (tc == 0 || x.tdown < tc) {
+		tc = x.tdown
+	}
+	return tc
 }
 
 func (x *hrun) dump() string {
@@ -677,6 +688,12 @@ func (x *hrun) judge(r *h.Run) {
 	effs := [2][]dl.Effect{append([]dl.Effect(nil), x.eff[0]...), append([]dl.Effect(nil), x.eff[1]...)}
 	tdown := x.tdown
 	x.mu.Unlock()
+	for d := range effs {
+		sort.SliceStable(effs[d], func(i, j int) bool { return effs[d][i].Call < effs[d][j].Call })
+	}
+	if x.incon != "" {
+		return // the recorded order of events is not trustworthy (see incon)
+	}
 	if len(closes) == 0 {
 		if x.incon == "" {
 			x.incon = "no close notification at all after Close() (C03 matter)"
@@ -723,6 +740,15 @@ func (x *hrun) judge(r *h.Run) {
 		return
 	}
 	r.Count("closes_"+dirName(dir)+"_timeout", 1)
+	if dir == 1 && x.hs.Shape == "backlog-drain-only" && x.bkAtClose == 0 {
+		// not asserted either way (the statement names only "a write that
+		// empties the backlog"): the poller's flush alone does not cancel
+		r.Count("write_timeouts_after_flush_alone_emptied_the_backlog(unasserted)", 1)
+	}
+	if dir == 1 && x.bkAtClose > 0 {
+		r.Count("write_timeouts_with_backlog_pending", 1)
+		r.Max("max_backlog_at_write_timeout", int64(x.bkAtClose))
+	}
 	x.outcome = "fire-" + dirName(dir)
 	// the instant the connection was marked closed, as sharp as observed
 	tc := c.T
@@ -781,9 +807,15 @@ func runCoreBatch(r *h.Run, cfg outb.Cfg, hists []histT, mon *dl.Monitor) {
 		t := dl.Now()
 		if v, ok := byConn.Load(c); ok {
 			x := v.(*hrun)
+			bkBytes := -1
+			if x.hs.Shape != "plain" {
+				// the queue is released only after this point
+				bkBytes = nbio.VerifBacklog(c).BufBytes
+			}
 			x.mu.Lock()
 			if x.tdown == 0 {
 				x.tdown = t
+				x.bkAtClose = bkBytes
 			}
 			x.mu.Unlock()
 		}
